@@ -309,8 +309,11 @@ impl<'a> Walk<'a> {
             }
         }
 
-        // Skip entries ignored by .gitignore
-        if !self.no_ignore && gitignore.matches(&entry.path, entry.tpe == EntryType::Dir) {
+        // Skip entries ignored by .gitignore, but not the paths given explicitly by the user
+        if !self.no_ignore
+            && level > 0
+            && gitignore.matches(&entry.path, entry.tpe == EntryType::Dir)
+        {
             return;
         }
 
